@@ -130,6 +130,13 @@ def run_path(I, con, vname, module, cls, fn, params, requires, ensures, raises, 
             svs[p] = I.eval(defaults[p], gframe)
     for k, v in svs.items():
         frame.vars[k] = v
+    # a nested def under contract: its sibling nested defs (same enclosing function) are in scope as closures
+    parent_qual = qual.rsplit('.', 1)[0]
+    pf = world.find_function(parent_qual)
+    if pf is not None and pf[2] is not fn and any(sub is fn for sub in ast.walk(pf[2])):
+        for st_ in pf[2].body:
+            if isinstance(st_, ast.FunctionDef) and st_.name not in frame.vars:
+                frame.vars[st_.name] = SV('func', Closure(st_, frame, f"{parent_qual}.{st_.name}", module, cls))
     sf = Frame(parent=None, module='__spec__')
     for k, v in svs.items():
         sf.vars[k] = v
